@@ -446,6 +446,21 @@ func (e *Engine) cevalCall(n *CCall, env *Env) Value {
 		oe.kTerm = env.kTerm
 		oe.kOther = env.kOther
 		return e.ceval(n.Args[0], &oe)
+	case "pre":
+		// pre(N, e): the value of e when loop N was entered (before its first iteration)
+		ni, ok := n.Args[0].(*CInt)
+		if !ok || len(n.Args) != 2 || env.st == nil {
+			cfail("pre(N, expr) needs a loop ordinal")
+		}
+		var ord int
+		fmt.Sscanf(ni.V, "%d", &ord)
+		snap, ok := env.st.loopPre[ord]
+		if !ok {
+			cfail("pre(%d, ...): loop %d has not been entered on this path", ord, ord)
+		}
+		pe := *env
+		pe.vars = snap
+		return e.ceval(n.Args[1], &pe)
 	case "ascii":
 		return Sc{app("gs.ascii", sarg(0).T), SBool}
 	case "real", "float64":
